@@ -4,7 +4,7 @@ import itertools
 from .. import brokermachine as bm
 from ..core import product
 
-RATES = ['0', '0.001', '0.0025', '0.5', '1']
+RATES = ['0', '0.0000278', '0.00035', '0.001', '0.0025', '0.5', '1']
 OPEN_INSTANTS = [2, 3, 4, 9]
 INIT = (('acct_sub', '5000000000'), ('create', '1'), ('pf_sub', '1', '200000'))
 
@@ -133,7 +133,7 @@ def point(case):
 
 def run(tier, res, is_known):
     its = items(tier)
-    res.rule = ('full product fee model (zero + 25 percentage pairs from {0,.001,.0025,.5,1}^2) x 4 quote tables '
+    res.rule = ('full product fee model (zero + 49 percentage pairs from {0,.0000278,.00035,.001,.0025,.5,1}^2) x 4 quote tables '
                 '(one crossed, one sub-dollar) x 2 assets x signed quantities x 4 open instants, plus buy+sell '
                 'batches; each point = submit + one update on the real broker; non-trivial = a fill under a '
                 'percentage model; distinct = distinct (fee, fills) outcome')
